@@ -82,6 +82,8 @@ class _Emit(Client):
             op, a, b = test.ops[0], test.left, test.comparators[0]
             if isinstance(op, ast.In) and self._is_cursor(a, ctx) and self._is_storage(b, ctx):
                 return ((pd, pa, True, isnext, stored),), ((pd, pa, False, isnext, stored),)
+            if isinstance(op, ast.NotIn) and self._is_cursor(a, ctx) and self._is_storage(b, ctx):
+                return ((pd, pa, False, isnext, stored),), ((pd, pa, True, isnext, stored),)
             if isinstance(op, (ast.Eq, ast.NotEq)) and self.serial is not None:
                 names = {src(a), src(b)}
                 if self.serial in names and any(self._is_cursor(x, ctx) for x in (a, b)):
